@@ -96,6 +96,13 @@ contract(T + ".__init__", "C13", is_init=True, params={"digesters": "none", "on_
                   "starts-empty": "len(self._queue) == 0 and self._total_ingested == 0 and self._total_digested == 0"})
 
 
+# the convenience entry for failures: exactly one item, of the failed-operation kind, goes through ingest (and so through its accounting and bounds)
+contract(T + ".ingest_error", "C13", params={"error": "any", "context": "opt:dict:str,any"}, options={"opaque_any_methods": True},
+         callbacks={"Lysosome.ingest": {"returns": "any", "raises": ()}},
+         callsite_pre={".ingest": {"one-failed-operation-item": "calls_to('.ingest') == 0 and arg0.waste_type == WasteType.FAILED_OPERATION and arg0.source == source"}},
+         ensures={"ingested-once": "calls_to('.ingest') == 1"})
+
+
 def native_replay(rep):
     """queues are symbolic object lists: witnesses (hangs, unlocked writes, bound/accounting breaks) are searched for with
     small configurations and operation sequences on the real Lysosome under a watchdog"""
